@@ -33,7 +33,21 @@ from pymtl3.dsl import *
 TABLE = {}
 def pick( s, seg, default ):
   return TABLE.get( repr(s) + '.' + seg, default )
+@bitstruct
+class Pq:
+  x: Bits4
+  y: Bits4
+@bitstruct
+class St:
+  a: Bits8
+  p: Pq
+  v: [ Bits4, Bits4, Bits4 ]
+  m: [ [ Bits2, Bits2 ], [ Bits2, Bits2 ] ]
 '''
+# sub-signals of a St-typed signal: (path segments, width, the further signals pymtl3 creates as a side effect of touching it)
+ST_FIELDS = [(('a',), 8, []), (('p', 'x'), 4, [('p',)]), (('p', 'y'), 4, [('p',)])] + \
+            [((f'v[{i}]',), 4, [(f'v[{j}]',) for j in range(3) if j != i]) for i in range(3)] + \
+            [((f'm[{i}][{j}]',), 2, [(f'm[{a}][{b}]',) for a in range(2) for b in range(2) if (a, b) != (i, j)]) for i in range(2) for j in range(2)]
 
 def nm(*segs): return tuple(segs)
 def expr(name): return 's' + ''.join(x if x.startswith('[') else '.' + x for x in name)
@@ -56,6 +70,12 @@ class CD:
     s.lines += [deco, f'def {name}():'] + ['  ' + b for b in body]
     s.facts.append(('blk', name, kind))
     s.facts += [('rd', name, r) for r in reads] + [('wr', name, w) for w in writes] + [('call', name, c) for c in calls]
+  def touch(s, base, fld):
+    """name of sub-signal fld of the St signal `base` (a relative name); records the signals created as a side effect"""
+    path, w, side = fld
+    for t in side:
+      if ('touch', base + t) not in s.facts: s.facts.append(('touch', base + t))
+    return base + path
   def source(s):
     body = ''.join(f'    {l}\n' for l in s.lines)
     m = f'  def recv_( s, v ):\n    s.acc = v\n    return v + 16 * s.kk + {1000 * s.cid}\n' if s.method and not s.forward else ''
@@ -120,6 +140,39 @@ class Gen:
         if rng.random() < 0.5: cd.lines.append('s.add_constraints( M(s.recv) < U(up_o) )'); cd.facts.append(('M', ('m', nm('recv')), ('b', 'up_o'), 'False'))
         else:                  cd.lines.append('s.add_constraints( U(up_o) < M(s.recv) )'); cd.facts.append(('M', ('b', 'up_o'), ('m', nm('recv')), 'False'))
         cd.features.add('leaf-M')
+    # struct-typed output port: fields / nested fields / list-field elements written by blocks of this component
+    cd.sig('so', 'OutPort', 'St')
+    # (every class drives so.a and so.v[0], so that an ancestor may connect to them whatever the slot holds)
+    flds = [ST_FIELDS[0], ST_FIELDS[3]] + rng.sample(ST_FIELDS[1:3] + ST_FIELDS[4:], rng.randrange(0, 2))
+    for fld in flds:
+      w = fld[1]; tgt = cd.touch(nm('so'), fld)
+      if w == 8: src_e, rds = expr(prev), [prev]
+      else:
+        lo = rng.randrange(0, 9 - w); src_e, rds = f'{expr(prev)}[{lo}:{lo + w}]', [prev + (f'[{lo}:{lo + w}]',)]
+      b = f'bs{cd.nblk}'; cd.nblk += 1
+      cd.blk(b, 'up', [f'{expr(tgt)} @= {src_e}'], rds, [tgt])
+    cd.features.add('leaf-struct-port-fields')
+    if rich and rng.random() < 0.4:
+      # an internal struct wire: fields written by a block, read by an update_ff block and by a lambda block
+      cd.sig('st', 'Wire', 'St')
+      wf = rng.sample(ST_FIELDS, rng.randrange(1, 4))
+      body, wrs, rds = [], [], []
+      for fld in wf:
+        w = fld[1]; tgt = cd.touch(nm('st'), fld)
+        if w == 8: body.append(f'{expr(tgt)} @= {expr(prev)}'); rds.append(prev)
+        else:
+          lo = rng.randrange(0, 9 - w); body.append(f'{expr(tgt)} @= {expr(prev)}[{lo}:{lo + w}]'); rds.append(prev + (f'[{lo}:{lo + w}]',))
+        wrs.append(tgt)
+      b = f'bt{cd.nblk}'; cd.nblk += 1
+      cd.blk(b, 'up', body, rds, wrs)
+      rf = rng.choice(wf); cd.sig('rs', 'Wire', rf[1]); f = f'ft{cd.nblk}'; cd.nblk += 1
+      cd.blk(f, 'ff', [f's.rs <<= {expr(cd.touch(nm("st"), rf))}'], [cd.touch(nm('st'), rf)], [nm('rs')])
+      if rng.random() < 0.6:
+        lf = rng.choice(wf); cd.sig('lw', 'Wire', lf[1])
+        cd.lines.append(f's.lw //= lambda: {expr(cd.touch(nm("st"), lf))} + 1')
+        cd.facts += [('blk', '{LAM}lw', 'up'), ('rd', '{LAM}lw', cd.touch(nm('st'), lf)), ('wr', '{LAM}lw', nm('lw'))]
+        cd.features.add('leaf-lambda-reads-field')
+      cd.features.add('leaf-struct-wire')
     s.constraints(cd, comb, 0.75 if rich else 0.3)
     s.leaves.append(cd)
     return cd
@@ -270,6 +323,30 @@ class Gen:
     else:
       b = f'up_out{cd.nblk}'; cd.nblk += 1
       cd.blk(b, 'up', [f's.out @= {expr(src)}'], [src], [nm('out')]); comb.append((b, {src}, {nm('out')}))
+    # struct-typed output port of this component: driven from a child's struct port, whole or field by field
+    cd.sig('so', 'OutPort', 'St')
+    seg = rng.choice(cd.slots)[0]
+    if rng.random() < 0.5:
+      cd.lines.append(f's.so //= {expr(nm(seg))}.so'); cd.facts.append(('edge', ('s', nm('so')), ('s', nm(seg, 'so'))))
+    else:
+      for fld in [ST_FIELDS[0], ST_FIELDS[3]] + rng.sample(ST_FIELDS[1:3] + ST_FIELDS[4:], rng.randrange(0, 2)):
+        src_f = rng.choice([f_ for f_ in ST_FIELDS if f_[1] == fld[1]])
+        b = f'bso{cd.nblk}'; cd.nblk += 1
+        cd.blk(b, 'up', [f'{expr(cd.touch(nm("so"), fld))} @= {expr(cd.touch(nm(seg, "so"), src_f))}'], [cd.touch(nm(seg, 'so'), src_f)], [cd.touch(nm('so'), fld)])
+      s.features.add('parent-block-reads-child-struct-fields')
+    for seg, c, k in cd.slots:
+      r = rng.random()
+      if r < 0.2:
+        fs = rng.sample(ST_FIELDS, rng.randrange(1, 3))
+        b = f'up_so{cd.nblk}'; cd.nblk += 1; cd.sig(f'u{cd.nblk}', 'Wire', 8)
+        rhs = ' + '.join((expr(cd.touch(nm(seg, 'so'), f_)) if f_[1] == 8 else f'zext( {expr(cd.touch(nm(seg, "so"), f_))}, 8 )') for f_ in fs)
+        cd.blk(b, 'up', [f's.u{cd.nblk} @= {rhs}'], [cd.touch(nm(seg, 'so'), f_) for f_ in fs], [nm(f'u{cd.nblk}')])
+        s.features.add('parent-block-reads-child-struct-fields')
+      elif r < 0.32:
+        f_ = rng.choice([ST_FIELDS[0], ST_FIELDS[3]]); cd.sig(f'q{cd.nblk}', 'Wire', f_[1])
+        cd.lines.append(f's.q{cd.nblk} //= {expr(cd.touch(nm(seg, "so"), f_))}')
+        cd.facts.append(('edge', ('s', nm(f'q{cd.nblk}')), ('s', cd.touch(nm(seg, 'so'), f_)))); cd.nblk += 1
+        s.features.add('parent-connects-child-struct-field')
     s.constraints(cd, comb, 0.3)
     cd.features |= {'inner'}
     return cd
@@ -284,17 +361,22 @@ class Gen:
     return PRELUDE + '\n'.join(c.source() for c in s.classes) + f'\nTop = {s.top.name}\n'
 
 # ------------------------------------------------------------------ instance hierarchy (for the model)
-def instantiate(cd, table, pre=()):
+def instantiate(cd, table, pre=(), abs_pre=()):
   """list of (relative component name, facts) of an instance of class cd; table: absolute slot -> class override"""
-  out = [(pre, cd.facts)]
+  def lam(x):
+    # a lambda connection creates an update block named after the full name of the driven signal of THIS instance
+    if isinstance(x, str) and x.startswith('{LAM}'):
+      return '_lambda__' + re.sub(r'[.\[\]:]', '_', expr(tuple(abs_pre) + pre + (x[5:],)))
+    return x
+  out = [(pre, [tuple(lam(x) for x in f) for f in cd.facts])]
   for seg, c, k in cd.slots:
-    c2 = table.get(pre + (seg,), c)
-    out += instantiate(c2, table, pre + (seg,))
+    c2 = table.get(tuple(abs_pre) + pre + (seg,), c) if abs_pre else table.get(pre + (seg,), c)
+    out += instantiate(c2, table, pre + (seg,), abs_pre)
   return out
 
 def refs_of(f):
   k = f[0]
-  if k in ('sig', 'meth'): return [f[1]]
+  if k in ('sig', 'meth', 'touch'): return [f[1]]
   if k in ('rd', 'wr', 'call'): return [f[2]]
   if k in ('RDU', 'WRU'): return [f[1]]
   if k == 'M': return [m[1] for m in (f[1], f[2]) if m[0] == 'm']
@@ -309,6 +391,7 @@ def coq_fact(f):
   k = f[0]
   if k == 'comp': return 'FComp'
   if k == 'sig': return f'(FSig {coq_name(f[1])})'
+  if k == 'touch': return f'(FTouch {coq_name(f[1])})'
   if k == 'meth': return f'(FMeth {coq_name(f[1])})'
   if k == 'blk': return f'(FBlk "{f[1]}" "{f[2]}")'
   if k in ('rd', 'wr', 'call'): return f'({ {"rd": "FRead", "wr": "FWrite", "call": "FCall"}[k] } "{f[1]}" {coq_name(f[2])})'
@@ -377,6 +460,8 @@ def dump_extra(top):
   for w, net in top.get_all_value_nets(): rows.add(('net', repr(w), tuple(sorted(repr(x) for x in net))))
   for w, net in top.get_all_method_nets(): rows.add(('mnet', repr(w), tuple(sorted(repr(x) for x in net))))
   for x in top.get_all_object_filter(lambda x: True): rows.add(('obj', type(x).__name__, repr(x)))
+  for x in top._dsl.all_signals:
+    if x._dsl.needs_double_buffer: rows.add(('dbuf', repr(x)))            # written by an update_ff block: double-buffered in simulation
   for x in top._dsl.all_signals: rows.add(('sigset', repr(x)))             # the set _resolve_value_connections floods from
   for x in top._dsl.all_method_ports: rows.add(('mportset', repr(x)))      # the set _resolve_method_connections floods from
   for c in top.get_all_components():
@@ -448,7 +533,7 @@ def drive(top, seed, pure, cycles=20):
 
 VIEW_OF = {'comp': 'all_components', 'sig': 'signals', 'meth': 'all_method_ports', 'blk': 'update_blocks', 'rd': 'upblk_reads', 'wr': 'upblk_writes',
            'call': 'upblk_calls', 'UU': 'U_U_constraints', 'RDU': 'RD_U_constraints', 'WRU': 'WR_U_constraints', 'M': 'M_constraints', 'adj': 'adjacency',
-           'net': 'value_nets', 'mnet': 'method_nets', 'obj': 'all_named_objects', 'sigset': 'dsl_all_signals', 'mportset': 'dsl_all_method_ports', 'child': 'child_components', 'level': 'component_level', 'params': 'construct_parameters'}
+           'net': 'value_nets', 'mnet': 'method_nets', 'obj': 'all_named_objects', 'sigset': 'dsl_all_signals', 'mportset': 'dsl_all_method_ports', 'child': 'child_components', 'level': 'component_level', 'params': 'construct_parameters', 'dbuf': 'double_buffer_flag'}
 
 def row_owner(row):
   v = row[0]
@@ -467,7 +552,28 @@ def row_names(row):
     elif isinstance(x, tuple): out += [y.replace('<deleted>', '') for y in x if isinstance(y, str)]
   return out
 
-def scope(row, slots):
+def lazy_kind(name, design):
+  """for a lazily created signal (slice / struct field / list-field element): which operation spawns it.
+  'lazy-slice' / 'lazy-field': only referred to from OUTSIDE its host component (a connection or block of an ancestor);
+  '...-own-block': (also) referred to by a block or connection of its own host component or below"""
+  from pymtl3.dsl.Connectable import Signal
+  try: o = eval(name, {'s': design})
+  except Exception: return None
+  if not isinstance(o, Signal) or o.is_top_level_signal(): return None
+  kind = 'lazy-slice' if o._dsl.slice is not None else 'lazy-field'
+  host = repr(o.get_host_component())
+  def below(n): return n == name or n.startswith(name + '.') or n.startswith(name + '[')
+  def inside(c): return c == host or c.startswith(host + '.')
+  rd, wr, _ = design.get_all_upblk_metadata()
+  for tab in (rd, wr):
+    for b, objs in tab.items():
+      h = design._dsl.all_upblk_hostobj.get(b)
+      if h is not None and inside(repr(h)) and any(below(repr(x)) for x in objs): return kind + '-own-block'
+  for c in design.get_all_components():
+    if inside(repr(c)) and any(below(repr(x)) for x in c._dsl.adjacency): return kind + '-own-block'
+  return kind
+
+def scope(row, slots, design=None):
   """structural position of a divergent entry (part of the violation key; no design-specific names):
      owned entries   owner-removed  the owning block has no host any more (entry contributed by a removed component)
                      outside-slot   owned by a live component and referring INTO a replaced slot strictly below that component
@@ -479,8 +585,20 @@ def scope(row, slots):
   o = row_owner(row)
   names = row_names(row)
   if o is None:
+    def slot_of(n): return next((s_ for s_ in slots if n == s_ or n.startswith(s_ + '.')), None)
+    if row[0] == 'adj' and design is not None and not any(CONST_RE.match(x) for x in names) and len(names) == 2 \
+       and slot_of(names[0]) is not None and slot_of(names[0]) == slot_of(names[1]):
+      # both ends belong to one replaced slot: which component made the connection?
+      sl = slot_of(names[0])
+      for c in design.get_all_components():
+        if any(repr(x) == names[0] and any(repr(y) == names[1] for y in ys) for x, ys in c._dsl.adjacency.items()):
+          return ':loopback-made-by-ancestor' if not (repr(c) == sl or repr(c).startswith(sl + '.')) else ':within-slot'
+    if row[0] in ('net', 'mnet') and names and slot_of(names[0]) is not None and all(slot_of(n) == slot_of(names[0]) for n in names):
+      return ':all-members-in-one-slot'
     if row[0] == 'adj' and any(CONST_RE.match(x) for x in names): return ':const'
-    if row[0] in ('sig', 'obj', 'sigset') and names and LAZY_RE.search(names[-1]): return ':lazy-slice'
+    if row[0] in ('sig', 'obj', 'sigset') and names:
+      k = lazy_kind(names[-1], design) if design is not None else ('lazy-slice' if LAZY_RE.search(names[-1]) else None)
+      if k: return ':' + k
     return ':entry'
   if '<no-host>' in o: return ':owner-removed'
   below = [s_ for s_ in slots if s_.startswith(o + '.')]
@@ -555,7 +673,7 @@ def run_history(ctx, tag, src, history, params, cases, meta, expect_hier=None, f
           [(r, 'only-scratch') for r in sorted((rows_s | ex_s) - (rows_r | ex_r), key=repr)]
   seen = set()
   for row, side in diffs:
-    key = f'C15:{classify(row, side)}-{VIEW_OF.get(row[0], row[0])}{scope(row, [h[0] for h in history])}'
+    key = f'C15:{classify(row, side)}-{VIEW_OF.get(row[0], row[0])}{scope(row, [h[0] for h in history], scratch if side == 'only-scratch' else top)}'
     if key in seen: continue
     seen.add(key)
     same = [r for r, s_ in diffs if s_ == side and r[0] == row[0]]
@@ -583,7 +701,8 @@ def run_history(ctx, tag, src, history, params, cases, meta, expect_hier=None, f
       tr_r = drive(top, seed, pure)
       d = sc.first_diff(tr_r, tr_s)
       if d or len(tr_r) != len(tr_s) or set(tr_r[0]) != set(tr_s[0]):
-        ctx.violation('C15:sim-trace:differs', f'{tag}: the replaced design and the direct build simulate differently: first difference {d}; signal sets differ: {sorted(set(tr_r[0]) ^ set(tr_s[0]))[:4]}',
+        cause = '+'.join(sorted({k.split(':')[1].split('-', 1)[1] for k in seen}))
+        ctx.violation('C15:sim-trace:differs' + ('-with-' + cause if cause else ''), f'{tag}: the replaced design and the direct build simulate differently (metadata views that differ as well: {cause or "none"}): first difference {d}; signal sets differ: {sorted(set(tr_r[0]) ^ set(tr_s[0]))[:4]}',
                       dict(replay, first_difference=d, input_seed=seed))
     except Exception as e:
       tb = traceback.extract_tb(e.__traceback__)[-1]
@@ -666,7 +785,7 @@ def random_history(ctx, g, j):
     history.append((expr(slot), mode, newc.name, k))
     table = {s_: v for s_, v in table.items() if s_[:len(slot)] != slot}
     table[slot] = newc
-    rs.append((slot, instantiate(newc, {})))
+    rs.append((slot, instantiate(newc, {}, (), slot)))
   return history, (H0, rs)
 
 # ------------------------------------------------------------------ directed minimal histories
@@ -784,6 +903,42 @@ class T6( Component ):
     @update
     def up_g():
       s.g @= s.p.a.out
+class As( Component ):
+  def construct( s, k=1, p=0 ):
+    s.in_ = InPort( 8 ); s.out = OutPort( 8 ); s.so = OutPort( St )
+    @update
+    def up_x():
+      s.out @= s.in_ + 1
+      s.so.a @= s.in_
+class T8( Component ):
+  def construct( s ):
+    s.in_ = InPort( 8 ); s.out = OutPort( 8 ); s.w = Wire( 4 )
+    s.a = pick( s, "a", As )( 1 )
+    s.a.in_ //= s.in_
+    s.out //= s.a.out
+    @update
+    def up_t():
+      s.w @= s.a.so.p.x
+class T9( Component ):
+  def construct( s ):
+    s.in_ = InPort( 8 ); s.out = OutPort( 8 )
+    s.a = pick( s, "a", B )( 1 )
+    @update_ff
+    def up_f():
+      s.a.in_ <<= s.in_
+    s.out //= s.a.out
+class T10( Component ):
+  def construct( s ):
+    s.in_ = InPort( 8 ); s.out = OutPort( 8 )
+    s.a = pick( s, "a", Breg )( 1 )
+    s.a.in_ //= s.a.out
+    s.out //= s.in_
+class Breg( Component ):
+  def construct( s, k=1, p=0 ):
+    s.in_ = InPort( 8 ); s.out = OutPort( 8 )
+    @update_ff
+    def up_r():
+      s.out <<= s.in_ + 1
 '''
 DIRECTED = [
   # (tag, top class, history, set_param)
@@ -797,6 +952,9 @@ DIRECTED = [
   ('D-parent-value-constraint-on-child-port', 'T5', [('s.a', 'cls', 'B', None)], []),
   ('D-grandparent-block-reads-grandchild-port', 'T6', [('s.p.a', 'cls', 'B', None)], []),
   ('D-parent-caller-port-connected-to-child-method', 'T7', [('s.a', 'cls', 'Bm', None), ('s.a', 'obj', 'Bm', 2)], []),
+  ('D-parent-block-reads-struct-field-of-child-port', 'T8', [('s.a', 'cls', 'As', None)], []),
+  ('D-parent-update_ff-writes-child-input-port', 'T9', [('s.a', 'cls', 'B', None)], []),
+  ('D-parent-loopback-connection-on-child', 'T10', [('s.a', 'cls', 'Breg', None)], []),
   ('D-plain', 'T1', [('s.a', 'cls', 'B', None), ('s.a', 'cls', 'A', None)], []),
 ]
 
@@ -808,7 +966,7 @@ def run(ctx):
   cases, meta = [], []
   for tag, topc, hist, params in DIRECTED:
     run_history(ctx, tag, DIRECTED_SRC + f'\nTop = {topc}\n', hist, params, cases, meta, feats=('directed',))
-  N = 100 if quick else 1200
+  N = 80 if quick else 1000
   for j in range(N):
     while True:
       g = Gen(random.Random(rng.randrange(1 << 30)), f'R{j}').build()
@@ -852,7 +1010,7 @@ def main(ctx):
   try: run(ctx)
   except Exception as e:
     ctx.violation('C15:harness-crash', f'correspondence could not run: {e!r}', {'traceback': traceback.format_exc()}, found_input=False)
-  return ctx.finish(rule='11 directed minimal histories + random hierarchies (depth 1-3, single / list / 2-d list slots; children with wires, slices, constants, registers, '
+  return ctx.finish(rule='14 directed minimal histories + random hierarchies (depth 1-3, single / list / 2-d list slots; children with wires, slices, constants, registers, '
                          'update / update_ff / update_once blocks, U_U / RD_U / WR_U / M constraints, method ports; parents that connect, write, read, slice, call into their children) x random '
                          'replacement sequences (1-4, same slot repeated, inside the previous replacement, replace_component and replace_component_with_obj, optional set_param); '
                          'distinct = (design, history)')
